@@ -86,6 +86,21 @@ add("C19", "E3-smallscope",
     "ensure_unique_labels on all 65 536 arrays 4x1x2 over {0,1,2,5} and all multi-hypothesis arrays 2x2x1x2 (thorough: also 3x1x3 over {0,1,3}): no label in two frames/hypotheses, per-frame partition and background unchanged, input not modified. relabel_segmentation_with_track_id on all labelled forests <=4/5 nodes x {labels = ids, labels reused across frames} x {with / without a detection missing from the solution}: same label iff same maximal unbranched segment, non-solution detections removed.",
     "Bounded shapes and label values.", E3M, "DESIGN.md 4 C19")
 
+add("C12", "E3-smallscope",
+    "tracks_from_df on every labelled forest <=3 (quick) / <=4 (thorough) nodes x id scheme {1..n, non-contiguous, containing 0, descending, strings, non-integer floats} x parent encoding {-1, NaN} x {2D,3D} x column naming {standard, all renamed, id renamed} x extra custom columns (scalar, list-valued string) x position order {standard, permuted}; import_from_geff on stores written with geff.write (forests x id schemes x dims x namings x {per-axis, permuted, pre-stacked position}). Oracle: nodes == source ids (or a link-preserving bijection for renumbered ids), edges == parent links, time / position in mapped order / every mapped property == source cell, caller's DataFrame unmodified. Malformed variants (duplicate id, unknown parent, self link at every row; missing required column / mapping) must raise ValueError.",
+    "Bounded forests and value schemes; pandas / geff / zarr trusted.", E3M, "DESIGN.md 4 C12")
+add("C14", "E1-explore",
+    "The distinct states of a BFS over the real objects (edited sessions: non-contiguous ids, divisions, skip edges, isolated nodes, custom features) in worlds {2D, 3D, per-axis positions, given ids, with segmentation 2D / 3D anisotropic} are each rebuilt and written and re-read as CSV, internal format and GEFF with the explicit corresponding key mapping; compared: nodes, edges, times, positions, track ids, lineage partition, loaded node/edge features, array (GEFF, internal), scale and registry (internal).",
+    "GEFF round trips cost 0.3-0.5 s and run on smaller state sets than CSV/internal (all states of their own BFS bound, no sampling). One genuine defect is recorded as KF-C14-geff-seg-centroid-outside-mask. The empty solution is not exported.",
+    MC + " + file round trip per distinct state", "DESIGN.md 4 C14")
+add("C15", "E3-smallscope",
+    "All labelled forests <=4 (quick) / <=5 (thorough) nodes x all 2^N node subsets x {CSV, GEFF} x {without, with segmentation}: written node set == selection + ancestors (independent recursive parent walk), written edges == induced edges, exported array == source masked to exactly those ids (GEFF) / those nodes labelled by track (CSV tif).",
+    "Quick tier runs GEFF for all forests <=3 nodes (all subsets) and single-node selections of 4-node forests; CSV everywhere. geff / zarr / tifffile trusted.",
+    E3M, "DESIGN.md 4 C15")
+add("C16", "E1-explore",
+    "Every distinct state of a BFS over the real objects in worlds {scale None / given, single-key / per-axis position, with / without segmentation} is rebuilt and each read-only operation (export_to_csv full / subset / display names / with segmentation, export_to_geff full / subset, save_tracks, and a bundle of every query incl. get_track_neighbors and has_track_id_at_time for every id and time) is executed separately; the full snapshot (graph, raw attributes, array bytes and identity, scale value and type, registry, lookups as sets, counters, both history stacks) must be identical before and after.",
+    "Bounded state sets (depth 0-1); geff / zarr / pandas trusted.", MC + " + operation bundle per distinct state", "DESIGN.md 4 C16")
+
 NOT_APPLICABLE = {}
 
 PENDING_REASON = "check not built yet in this round (planned, see DESIGN.md section 4); not claimed until its command exists"
